@@ -6,6 +6,7 @@
 import Tranp.Lemmas.RulesAst
 import Tranp.Lemmas.C12FixedPy
 import Tranp.Lemmas.C12LexGram
+import Tranp.Lemmas.RenderRt
 import Tranp.Generated.RtWitnesses
 
 namespace Tranp.C12
@@ -65,6 +66,30 @@ theorem fixed_gram_text :
     exact ⟨ts, hts, by simpa using h⟩
   · cases h
 
+/-- … and with the token classes computed in Lean as well (`GramClass`: the five regexp terminals of the meta-grammar transcribed
+    as predicates, `gram_class_agrees`): from the embedded TEXT of gram.lark, lexer model → class predicates → engine → `from_ast`
+    reproduce the built-in rule set with no dumped token data at all. -/
+theorem fixed_gram_pure :
+    ((TextRt.lexGram gramLarkText).toOption.bind fun ts => (C12Fixed.compile ts).toOption.map Ast.simplify) = some gramRulesAst ∧
+    fromAst gramRulesAst = .ok gramRules := by
+  refine ⟨?_, C12Fixed.gram_literal⟩
+  rw [C12Fixed.gram_lex_full]
+  have := C12Fixed.gram_tree
+  cases h : C12Fixed.compile gramLarkTokens with
+  | error e => rw [h] at this; cases this
+  | ok t =>
+    rw [h] at this
+    simp only [Except.map, Except.ok.injEq] at this
+    simp [Except.toOption, Option.bind, h, this]
+
+/-- the transcribed regexp predicates agree with the real `re` on every dumped token (see Lemmas/C12LexGram.lean) -/
+theorem gram_class_agrees :
+    gramRegexps = GramClass.gramRegexpTexts ∧
+    (gramLarkTokens.all fun t => GramClass.gramClass t.str == t.cls) = true ∧
+    (pyGramLarkTokens.all fun t => GramClass.gramClass t.str == t.cls) = true ∧
+    (rtWitnesses.all fun w => w.2.2.all fun t => GramClass.gramClass t.str == t.cls) = true :=
+  C12Fixed.gram_class_agrees
+
 /-- Compiling data/syntax/py_gram.lark (its real token list) as `gram_check` does yields, through `render_rules`, exactly the
     text of data/syntax/py_rules.py; the compiled tree is the literal of py_rules.py up to Python's reading of `\'`; and
     `from_ast` of that literal is `py_rules()`. -/
@@ -80,6 +105,19 @@ theorem fixed_py :
     simp only [Bool.and_eq_true, decide_eq_true_eq] at h
     exact ⟨t, ht, h.1, h.2⟩
   · cases h
+
+/-! ## the renderer's escape fix-ups -/
+
+/-- For every token value without a single quote, the text `render_rules` writes between the quotes of the Python literal
+    (backslashes doubled, then `\\'` turned into `\'`) is read back by Python's literal evaluation (`\\` ↦ `\`, `\'` ↦ `'`) as the
+    value itself — the value-level half of "the generated module defines the rules of the grammar"; that the text stays ONE
+    line-structured literal (no raw LF/CR, no other line separator splitting it) is checked by the `render-import` search. -/
+theorem render_value_rt (v : Str) (h : '\'' ∉ v) : pyUnescape (fixups v) = v :=
+  RulesAst.render_value_rt v h
+
+/-- non-vacuity: a regexp body full of backslashes, `[\/].+\\` -/
+example : pyUnescape (fixups ['[', '\\', '/', ']', '.', '+', '\\', '\\']) = ['[', '\\', '/', ']', '.', '+', '\\', '\\'] ∧
+    fixups ['a', '\\', 'b'] = ['a', '\\', '\\', 'b'] := by decide
 
 /-! ## text-level round trip -/
 
@@ -105,6 +143,13 @@ theorem text_rt_partial (lex : Str → List Tok) (fuel : List Tok → Nat) (g : 
   show fromAst t.simplify = .ok g
   rw [hshape]
   exact ast_rt_from_to g h
+
+set_option maxRecDepth 100000 in
+/-- **The meta-grammar reproduces itself at text level**: printing the built-in rule set, lexing and parsing the printout with
+    that very rule set and rebuilding gives the built-in rule set back (`TextRt.textRt`: model printer, C13 lexer model with the gram
+    token definition, transcribed regexp classes, engine, `from_ast`) — an instance of `text_rt_statement` with nothing
+    trusted but the two transcriptions (lexer model: C13; regexp predicates: `gram_class_agrees`). -/
+theorem text_rt_gram : TextRt.textRt gramRules = true := by decide +kernel
 
 /-- `x := a (b | c)` -/
 def bareGroup : Rules :=
@@ -136,6 +181,13 @@ def rtHolds (w : TEntry × Str × List Tok) : Bool :=
 /-- The text-level round trip, evaluated by the kernel on every recorded witness (verif/corpus/C12: the F7 witnesses
     `x := a (b | c)`, `x := (a)`, `y[1] := (a "+") | b`), with the real printed text and its real token list as data. -/
 theorem text_rt_regression : rtWitnesses.all rtHolds = true := by decide +kernel
+
+set_option maxRecDepth 100000 in
+/-- the recorded witnesses round-trip entirely in Lean as well (no dumped tokens) -/
+theorem text_rt_witnesses :
+    (rtWitnesses.all fun w => match fromAst w.1 with
+      | .ok g => TextRt.textRt g
+      | .error _ => false) = true := by decide +kernel
 
 /-! ## equal rule sets accept the same sentences -/
 
